@@ -196,6 +196,11 @@ Proof.
   - apply N.ltb_ge. apply N.div_le_lower_bound; lia.
 Qed.
 
+Lemma zmod_neg z M : (- M <= z < 0)%Z -> (z mod M)%Z = (z + M)%Z.
+Proof.
+  intros H. rewrite <- (Z_mod_plus_full z 1 M). rewrite Z.mod_small; lia.
+Qed.
+
 Lemma tc_val_tc_bytes k z : (1 <= k)%nat -> fits k z -> tc_val (tc_bytes k z) = z.
 Proof.
   intros Hk Hf. destruct k as [|j]; [lia|]. rewrite tc_bytes_eq.
@@ -205,7 +210,248 @@ Proof.
   rewrite be_bytes_S in *. rewrite tc_val_cons, Hbv, be_bytes_length.
   pose proof (P256_pos j) as Hp. rewrite P256_S in Hv.
   rewrite head_lt_128 by lia.
-  unfold fits in Hf. rewrite P256_S in *. subst v.
+  unfold fits in Hf. subst v. rewrite P256_S in *.
   destruct (Z.ltb_spec z 0).
-  - assert (E : (z mod ZP' )%Z = z) by idtac.
-Abort.
+  - rewrite zmod_neg by lia.
+    replace (Z.to_N (z + Z.of_N (256 * P256 j)) <? 128 * P256 j) with false by lia. lia.
+  - rewrite Z.mod_small by lia.
+    replace (Z.to_N z <? 128 * P256 j) with true by lia. lia.
+Qed.
+
+Lemma tc_val_mod bs : bytes_ok bs = true ->
+  Z.to_N (tc_val bs mod ZP (length bs)) = be_val bs.
+Proof.
+  intros H. pose proof (be_val_lt bs H) as Hlt. destruct bs as [|b r].
+  - cbn [length tc_val]. rewrite P256_0. reflexivity.
+  - rewrite tc_val_cons. cbn [length] in *. destruct (b <? 128).
+    + rewrite Z.mod_small by lia. lia.
+    + rewrite zmod_neg by lia. lia.
+Qed.
+
+Lemma tc_bytes_tc_val bs : bytes_ok bs = true -> tc_bytes (length bs) (tc_val bs) = bs.
+Proof.
+  intros H. rewrite tc_bytes_eq, tc_val_mod by exact H. now apply be_bytes_be_val.
+Qed.
+
+Lemma tc_val_fits bs : bytes_ok bs = true -> bs <> [] -> fits (length bs) (tc_val bs).
+Proof.
+  intros H Hne. destruct bs as [|b r]; [congruence|].
+  pose proof (be_val_lt _ H) as Hlt. apply bytes_ok_cons in H as [Hb Hr].
+  pose proof (be_val_lt _ Hr) as Hr'. pose proof (P256_pos (length r)).
+  rewrite tc_val_cons. unfold fits. rewrite be_val_cons in *. cbn [length] in *. rewrite P256_S in *.
+  destruct (N.ltb_spec b 128); nia.
+Qed.
+
+Lemma tc_bytes_snoc k z :
+  tc_bytes (S k) z = tc_bytes k (z / 256)%Z ++ [Z.to_N (z mod 256)%Z].
+Proof.
+  rewrite !tc_bytes_eq, be_bytes_snoc, P256_S. pose proof (P256_pos k).
+  rewrite N2Z.inj_mul. change (Z.of_N 256) with 256%Z.
+  rewrite Z.rem_mul_r by lia.
+  set (a := (z mod 256)%Z). set (c := ((z / 256) mod ZP k)%Z).
+  assert (0 <= a < 256)%Z by (subst a; lia).
+  assert (0 <= c < ZP k)%Z by (subst c; apply Z.mod_pos_bound; lia).
+  f_equal; [f_equal|f_equal]; lia.
+Qed.
+
+Lemma redundant_iff b0 b1 r : bytes_ok (b0 :: b1 :: r) = true ->
+  redundant (b0 :: b1 :: r) = true <-> fits (S (length r)) (tc_val (b0 :: b1 :: r)).
+Proof.
+  intros H. apply bytes_ok_cons in H as [H0 H]. apply bytes_ok_cons in H as [H1 Hr].
+  pose proof (be_val_lt _ Hr) as HR. pose proof (P256_pos (length r)) as HP.
+  rewrite tc_val_cons, !be_val_cons. cbn [length redundant]. unfold fits. rewrite !P256_S.
+  set (P := P256 (length r)) in *. set (R := be_val r) in *.
+  destruct (N.ltb_spec b0 128).
+  - split; intro E.
+    + assert (b0 = 0 /\ b1 < 128) as [-> ?] by lia. nia.
+    + assert (b0 = 0) by nia. subst b0. assert (b1 < 128) by nia. lia.
+  - split; intro E.
+    + assert (b0 = 255 /\ 128 <= b1) as [-> ?] by lia. nia.
+    + assert (b0 = 255) by nia. subst b0. assert (128 <= b1) by nia. lia.
+Qed.
+
+Lemma redundant_drop b0 b1 r : bytes_ok (b0 :: b1 :: r) = true ->
+  redundant (b0 :: b1 :: r) = true -> tc_val (b0 :: b1 :: r) = tc_val (b1 :: r).
+Proof.
+  intros H E. apply bytes_ok_cons in H as [H0 H]. apply bytes_ok_cons in H as [H1 Hr].
+  rewrite !tc_val_cons, !be_val_cons. cbn [length redundant] in *. rewrite !P256_S.
+  assert ((b0 = 0 /\ b1 < 128) \/ (b0 = 255 /\ 128 <= b1)) as [[-> ?]|[-> ?]] by lia.
+  - replace (0 <? 128) with true by reflexivity. replace (b1 <? 128) with true by lia. lia.
+  - replace (255 <? 128) with false by reflexivity. replace (b1 <? 128) with false by lia. lia.
+Qed.
+
+Lemma canon_len_unique k k' z : canon_len k z -> canon_len k' z -> k = k'.
+Proof.
+  intros (H1 & Hf & Hm) (H1' & Hf' & Hm').
+  destruct (Nat.lt_trichotomy k k') as [L|[E|L]]; [|exact E|].
+  - destruct Hm' as [->|Hn]; [lia|]. exfalso. apply Hn. apply (fits_mono k); [lia|exact Hf].
+  - destruct Hm as [->|Hn]; [lia|]. exfalso. apply Hn. apply (fits_mono k'); [lia|exact Hf'].
+Qed.
+
+(* a non-empty string without redundant first byte has the canonical length of its value *)
+Lemma nonredundant_canon bs : bytes_ok bs = true -> bs <> [] ->
+  redundant bs = false <-> canon_len (length bs) (tc_val bs).
+Proof.
+  intros H Hne. pose proof (tc_val_fits bs H Hne) as Hf.
+  destruct bs as [|b0 [|b1 r]]; [congruence| |].
+  - cbn [redundant length]. unfold canon_len. intuition.
+  - pose proof (redundant_iff b0 b1 r H) as Hi. cbn [length] in *.
+    unfold canon_len. replace (S (S (length r)) - 1)%nat with (S (length r)) by lia.
+    split.
+    + intro E. split; [lia|]. split; [exact Hf|]. right. rewrite <- Hi, E. discriminate.
+    + intros (_ & _ & [E|Hn]); [lia|]. destruct (redundant (b0 :: b1 :: r)); [|reflexivity].
+      exfalso. apply Hn, Hi. reflexivity.
+Qed.
+
+(* the canonical string: unique, shortest, never redundant *)
+Lemma canon_bytes_val k z : canon_len k z -> tc_val (tc_bytes k z) = z.
+Proof. intros (H1 & Hf & _). now apply tc_val_tc_bytes. Qed.
+
+Lemma canon_bytes_nonredundant k z : canon_len k z -> redundant (tc_bytes k z) = false.
+Proof.
+  intros Hc. pose proof Hc as (H1 & Hf & _).
+  apply nonredundant_canon.
+  - apply tc_bytes_ok.
+  - intro E. apply (f_equal (@length N)) in E. rewrite tc_bytes_length in E. cbn in E. lia.
+  - now rewrite tc_bytes_length, tc_val_tc_bytes.
+Qed.
+
+Lemma canon_bytes_shortest k z bs : canon_len k z ->
+  bytes_ok bs = true -> bs <> [] -> tc_val bs = z -> (k <= length bs)%nat.
+Proof.
+  intros (H1 & Hf & Hm) Hok Hne Hv. pose proof (tc_val_fits bs Hok Hne) as Hb. rewrite Hv in Hb.
+  destruct Hm as [->|Hn].
+  - destruct bs; [congruence|cbn [length]; lia].
+  - destruct (le_lt_dec k (length bs)); [assumption|]. exfalso. apply Hn.
+    apply (fits_mono (length bs)); [lia|exact Hb].
+Qed.
+
+Lemma canon_bytes_unique k z bs : canon_len k z ->
+  bytes_ok bs = true -> tc_val bs = z -> length bs = k -> bs = tc_bytes k z.
+Proof. intros _ Hok Hv Hl. rewrite <- Hv, <- Hl. symmetry. now apply tc_bytes_tc_val. Qed.
+
+Lemma nonredundant_unique k z bs : canon_len k z ->
+  bytes_ok bs = true -> bs <> [] -> redundant bs = false -> tc_val bs = z -> bs = tc_bytes k z.
+Proof.
+  intros Hc Hok Hne Hr Hv. apply (canon_bytes_unique k z bs Hc Hok Hv).
+  apply (nonredundant_canon bs Hok Hne) in Hr. rewrite Hv in Hr.
+  apply (canon_len_unique _ _ z Hr Hc).
+Qed.
+
+(* ================================================================== *)
+(* 4. bit length, big.Int.Bytes, the closed-form minimal length        *)
+(* ================================================================== *)
+Lemma bitlen_0 : bitlen 0 = 0. Proof. reflexivity. Qed.
+
+Lemma bitlen_pos n : n <> 0 -> 1 <= bitlen n.
+Proof. intro H. unfold bitlen. rewrite N.size_log2 by exact H. lia. Qed.
+
+Lemma bitlen_bounds n : n <> 0 -> 2 ^ (bitlen n - 1) <= n < 2 ^ bitlen n.
+Proof.
+  intro H. unfold bitlen. rewrite N.size_log2 by exact H.
+  replace (N.succ (N.log2 n) - 1) with (N.log2 n) by lia.
+  apply N.log2_spec. lia.
+Qed.
+
+Lemma bitlen_lt n : n < 2 ^ bitlen n.
+Proof. apply N.size_gt. Qed.
+
+Lemma bitlen_unique n b : 1 <= b -> 2 ^ (b - 1) <= n < 2 ^ b -> bitlen n = b.
+Proof.
+  intros Hb H. assert (n <> 0).
+  { pose proof (N.pow_nonzero 2 (b - 1)). lia. }
+  unfold bitlen. rewrite N.size_log2 by assumption.
+  rewrite (N.log2_unique n (b - 1)); [lia|lia|]. replace (N.succ (b - 1)) with b by lia. exact H.
+Qed.
+
+Lemma pow2_le a b : a <= b -> 2 ^ a <= 2 ^ b.
+Proof. intro. apply N.pow_le_mono_r; lia. Qed.
+
+(* big.Int.Bytes: k bytes where 256^(k-1) <= n < 256^k (k = 0 for n = 0) *)
+Definition ulen (k : nat) (n : N) : Prop := n < P256 k /\ (k = 0%nat \/ P256 (k - 1) <= n).
+
+Lemma ulen_unique k k' n : ulen k n -> ulen k' n -> k = k'.
+Proof.
+  intros (H1 & H2) (H1' & H2').
+  destruct (Nat.lt_trichotomy k k') as [L|[E|L]]; [|exact E|]; exfalso.
+  - destruct H2' as [->|H2']; [lia|]. pose proof (P256_le k (k' - 1)). lia.
+  - destruct H2 as [->|H2]; [lia|]. pose proof (P256_le k' (k - 1)). lia.
+Qed.
+
+Lemma nat_bytes_len n : ulen (N.to_nat ((bitlen n + 7) / 8)) n.
+Proof.
+  set (k := N.to_nat ((bitlen n + 7) / 8)). unfold ulen. rewrite !P256_two. split.
+  - eapply N.lt_le_trans; [apply bitlen_lt|]. apply pow2_le. lia.
+  - destruct (N.eq_dec n 0) as [->|Hn].
+    + left. reflexivity.
+    + right. pose proof (bitlen_pos n Hn). pose proof (bitlen_bounds n Hn) as [Hlo _].
+      eapply N.le_trans; [|exact Hlo]. apply pow2_le. lia.
+Qed.
+
+Lemma nat_bytes_spec n : exists k, ulen k n /\ nat_bytes n = be_bytes k n.
+Proof. eexists. split; [apply nat_bytes_len|reflexivity]. Qed.
+
+Lemma nat_bytes_of_ulen k n : ulen k n -> nat_bytes n = be_bytes k n.
+Proof.
+  intro H. destruct (nat_bytes_spec n) as (k' & H' & ->). now rewrite (ulen_unique _ _ _ H' H).
+Qed.
+
+Lemma be_val_nat_bytes n : be_val (nat_bytes n) = n.
+Proof.
+  destruct (nat_bytes_spec n) as (k & (Hlt & _) & ->). rewrite be_val_be_bytes. now apply N.mod_small.
+Qed.
+
+Lemma nat_bytes_ok n : bytes_ok (nat_bytes n) = true.
+Proof. apply be_bytes_ok. Qed.
+
+(* magnitude used by tc_len: z for z >= 0, -z-1 for z < 0 *)
+Definition mag (z : Z) : N := Z.to_N (if (z <? 0)%Z then (- z - 1)%Z else z).
+
+Lemma fits_mag k z : (1 <= k)%nat -> fits k z <-> 2 * mag z < P256 k.
+Proof.
+  intro Hk. destruct k as [|j]; [lia|]. unfold fits, mag. rewrite P256_S.
+  pose proof (P256_pos j). destruct (Z.ltb_spec z 0); lia.
+Qed.
+
+Lemma tc_len_eq z : tc_len z = N.to_nat (bitlen (mag z) / 8 + 1).
+Proof. reflexivity. Qed.
+
+Lemma tc_len_spec z : canon_len (tc_len z) z.
+Proof.
+  rewrite tc_len_eq. set (m := mag z). set (s := bitlen m).
+  set (k := N.to_nat (s / 8 + 1)). assert (Hk : (1 <= k)%nat) by lia.
+  unfold canon_len. split; [exact Hk|]. split.
+  - apply fits_mag; [exact Hk|]. fold m. rewrite P256_two.
+    pose proof (bitlen_lt m). fold s in H.
+    assert (2 ^ (s + 1) <= 2 ^ (8 * N.of_nat k)) by (apply pow2_le; lia).
+    rewrite N.pow_add_r in H0. change (2 ^ 1) with 2 in H0. lia.
+  - destruct (Nat.eq_dec k 1) as [E|E]; [left; exact E|right].
+    rewrite fits_mag by lia. fold m. rewrite P256_two.
+    assert (Hm : m <> 0). { intro E0. subst s. rewrite E0, bitlen_0 in *. subst k. cbn in E. lia. }
+    pose proof (bitlen_bounds m Hm) as [Hlo _]. pose proof (bitlen_pos m Hm). fold s in Hlo, H.
+    assert (2 ^ (8 * N.of_nat (k - 1)) <= 2 ^ s) by (apply pow2_le; lia).
+    replace s with (s - 1 + 1) in H0 by lia. rewrite N.pow_add_r in H0. change (2 ^ 1) with 2 in H0. lia.
+Qed.
+
+Lemma tc_len_unique k z : canon_len k z -> k = tc_len z.
+Proof. intro H. apply (canon_len_unique _ _ z H (tc_len_spec z)). Qed.
+
+Lemma tc_len_pos z : (1 <= tc_len z)%nat.
+Proof. apply tc_len_spec. Qed.
+
+(* the canonical encoding *)
+Definition tc_enc (z : Z) : bytes := tc_bytes (tc_len z) z.
+
+Lemma tc_val_enc z : tc_val (tc_enc z) = z.
+Proof. apply canon_bytes_val, tc_len_spec. Qed.
+Lemma tc_enc_length z : length (tc_enc z) = tc_len z.
+Proof. apply tc_bytes_length. Qed.
+Lemma tc_enc_ok z : bytes_ok (tc_enc z) = true.
+Proof. apply tc_bytes_ok. Qed.
+Lemma tc_enc_nonempty z : tc_enc z <> [].
+Proof.
+  intro E. apply (f_equal (@length N)) in E. rewrite tc_enc_length in E.
+  pose proof (tc_len_pos z). cbn in E. lia.
+Qed.
+Lemma tc_enc_nonredundant z : redundant (tc_enc z) = false.
+Proof. apply canon_bytes_nonredundant, tc_len_spec. Qed.
